@@ -26,7 +26,7 @@ func C12(r *core.Run) {
 	arrayItems(r)
 	boundNarrowing(r)
 	freshExtensions(r)
-	attributeIndependence(r, "sym_sites", "buildField", "buildProperty") // a declared rule is emitted whatever the sibling attributes are
+	attributeIndependence(r, "sym_sites", "*") // a declared rule is emitted whatever the sibling attributes are
 }
 
 // boundPresence: a bound is emitted iff it is declared (pure nil test).
@@ -57,8 +57,42 @@ func boundPresence(r *core.Run) {
 		label := clauseLabel(info, fd, enclosingClause(fd, outer))
 		o := r.Add("R-SYM/S4p", fmt.Sprintf("j5convert.buildField | %s | presence of %s", label, bound), outer.Pos(), "presence condition of the "+bound+" bound")
 		b, isBin := core.Unparen(outer.Cond).(*ast.BinaryExpr)
-		if isBin && b.Op == token.NEQ && core.IsNilIdent(info, b.Y) && strings.HasSuffix(core.ExprStr(b.X), ".Rules."+bound) {
+		// the tested expression, with a local alias of the rules message resolved:
+		// `r := st.Integer.Rules` defined once and never reassigned stands for it
+		tested, aliasWhy := "", ""
+		if isBin {
+			tested = core.ExprStr(b.X)
+			if sel, ok := core.Unparen(b.X).(*ast.SelectorExpr); ok {
+				if id, ok := core.Unparen(sel.X).(*ast.Ident); ok {
+					if obj := info.Uses[id]; obj != nil {
+						defs, rhs := 0, ""
+						ast.Inspect(fd.Body, func(x ast.Node) bool {
+							if as, ok := x.(*ast.AssignStmt); ok {
+								for i, l := range as.Lhs {
+									if li, ok := l.(*ast.Ident); ok && (info.Defs[li] == obj || info.Uses[li] == obj) {
+										defs++
+										if len(as.Rhs) == len(as.Lhs) {
+											rhs = core.ExprStr(as.Rhs[i])
+										}
+									}
+								}
+							}
+							return true
+						})
+						switch {
+						case defs == 1 && strings.HasSuffix(rhs, ".Rules"):
+							tested = rhs + "." + sel.Sel.Name
+						case defs > 1:
+							aliasWhy = fmt.Sprintf(" (%s is assigned %d times: the rules the bounds are read from are not the declared ones on every path)", id.Name, defs)
+						}
+					}
+				}
+			}
+		}
+		if isBin && b.Op == token.NEQ && core.IsNilIdent(info, b.Y) && strings.HasSuffix(tested, ".Rules."+bound) {
 			o.Auto("%s", core.ExprStr(outer.Cond))
+		} else if aliasWhy != "" {
+			o.Fail("the bound is emitted under %s%s", core.ExprStr(outer.Cond), aliasWhy)
 		} else {
 			o.Fail("the bound is emitted under %s instead of a plain nil test of Rules.%s: some declared bounds are silently not enforced", core.ExprStr(outer.Cond), bound)
 		}
